@@ -487,4 +487,7 @@ def _get_Hamiltonian_from_couplings(model, sparse: bool, undo_sort_charge: bool)
         if len(sites_since_last_op) > 0:
             t = kron(t, np.eye(np.prod([dims[n] for n in sites_since_last_op])))
         H = H + s * t
+    if model.explicit_plus_hc:
+        # the terms of the model represent only "half" of the Hamiltonian: add the hermitian conjugate
+        H = H + H.conj().T
     return H
